@@ -383,7 +383,12 @@ def build_pptx(seed: int, feature: str | None = None, twin: bool = False):
     sld_ids = []
     img_no = 0
     feature_slide = rng.randrange(n_slides)
+    # OPC part names are arbitrary: half of the decks number their slide parts out of presentation order
+    part_no = list(range(1, n_slides + 1))
+    if rng.random() < 0.5:
+        part_no = rng.sample(range(1, n_slides + 4), n_slides)
     for s in range(n_slides):
+        pn = part_no[s]
         shapes = []
         rels = []
         y = 100000
@@ -480,13 +485,13 @@ def build_pptx(seed: int, feature: str | None = None, twin: bool = False):
         # speaker notes -> excluded
         if rng.random() < 0.4:
             ntok = exp.out(tk.new("n"))
-            parts[f"ppt/notesSlides/notesSlide{s + 1}.xml"] = (f'<?xml version="1.0" encoding="UTF-8"?><p:notes xmlns:a="{A}" xmlns:p="{P}" xmlns:r="{R_NS}"><p:cSld><p:spTree><p:nvGrpSpPr><p:cNvPr id="1" name=""/><p:cNvGrpSpPr/><p:nvPr/></p:nvGrpSpPr><p:grpSpPr/>'
+            parts[f"ppt/notesSlides/notesSlide{pn}.xml"] = (f'<?xml version="1.0" encoding="UTF-8"?><p:notes xmlns:a="{A}" xmlns:p="{P}" xmlns:r="{R_NS}"><p:cSld><p:spTree><p:nvGrpSpPr><p:cNvPr id="1" name=""/><p:cNvGrpSpPr/><p:nvPr/></p:nvGrpSpPr><p:grpSpPr/>'
                                                                 f'<p:sp><p:nvSpPr><p:cNvPr id="3" name="Notes"/><p:cNvSpPr/><p:nvPr><p:ph type="body" idx="1"/></p:nvPr></p:nvSpPr><p:spPr/><p:txBody><a:bodyPr/>{_ap(_ar(ntok))}</p:txBody></p:sp></p:spTree></p:cSld></p:notes>').encode()
-            rels.append((f"rIdNotes{s + 1}", REL_T + "notesSlide", f"../notesSlides/notesSlide{s + 1}.xml", None))
-        parts[f"ppt/slides/slide{s + 1}.xml"] = (f'<?xml version="1.0" encoding="UTF-8" standalone="yes"?><p:sld xmlns:a="{A}" xmlns:p="{P}" xmlns:r="{R_NS}"><p:cSld><p:spTree>'
+            rels.append((f"rIdNotes{s + 1}", REL_T + "notesSlide", f"../notesSlides/notesSlide{pn}.xml", None))
+        parts[f"ppt/slides/slide{pn}.xml"] = (f'<?xml version="1.0" encoding="UTF-8" standalone="yes"?><p:sld xmlns:a="{A}" xmlns:p="{P}" xmlns:r="{R_NS}"><p:cSld><p:spTree>'
                                                  f'<p:nvGrpSpPr><p:cNvPr id="1" name=""/><p:cNvGrpSpPr/><p:nvPr/></p:nvGrpSpPr><p:grpSpPr/>{"".join(shapes)}</p:spTree></p:cSld></p:sld>').encode()
-        parts[f"ppt/slides/_rels/slide{s + 1}.xml.rels"] = _rels(rels)
-        target = f"/ppt/slides/slide{s + 1}.xml" if (risky == "slide-target-absolute" and s == feature_slide) else f"slides/slide{s + 1}.xml"
+        parts[f"ppt/slides/_rels/slide{pn}.xml.rels"] = _rels(rels)
+        target = f"/ppt/slides/slide{pn}.xml" if (risky == "slide-target-absolute" and s == feature_slide) else f"slides/slide{pn}.xml"
         pres_rels.append((f"rIdS{s + 1}", REL_T + "slide", target, None))
         sld_ids.append(f'<p:sldId id="{256 + s}" r:id="rIdS{s + 1}"/>')
     exp.n_units = n_slides
